@@ -92,7 +92,7 @@ PROPS["C05"] = {
     "verus_units": ["state_tree", "delay_history", "wasm_state", "mirgen_state", "backend_state", "vm_storage"],
     "replay": "layout",
     "replay_units": ["mirgen_state"],
-    "replay_by_unit": {"backend_state": ["exchange", "layout"], "wasm_state": ["exchange"], "vm_storage": ["layout", "exchange"]},
+    "replay_by_unit": {"backend_state": ["exchange", "layout"], "wasm_state": ["exchange"], "vm_storage": ["layout", "exchange"], "mirgen_state": ["layout", "exchange"]},
     "kani_units": [RUNTIME_C05],
     "floor": {"obligations": 75},
     "trusted_base": ST_TRUSTED + [
@@ -122,12 +122,13 @@ PROPS["C05"] = {
 }
 PROPS["C12"] = {
     "bounded_checks": [
+        {"name": "drop_shared", "searcher": "drop_shared", "clause": "what close_upvalues_by_idx retains per upvalue cell, drop_closure releases per cell (the glue between the per-cell visitors, which are under contract): a closed closure that is run and dropped leaves nothing alive", "bound": "14 hand-assembled bytecode programs: 1-4 upvalue cells capturing distinct / repeated closures, direct and heap-backed, 8 samples each"},
         {"name": "boxed", "searcher": "boxed", "clause": "steady state of live heap objects for programs that build boxed user-sum values per sample (the composition of compiler-inserted clone / release with the VM walkers)", "bound": "11 programs, 64 against 128 samples on the real VM"},
     ],
     "verus_units": ["heap", "usersum", "closures", "upvalues", "mirgen_rc"],
     "replay": "boxed",
     "replay_units": ["usersum"],
-    "replay_by_unit": {"mirgen_rc": ["let_release", "boxed"]},
+    "replay_by_unit": {"mirgen_rc": ["let_release", "boxed"], "upvalues": ["drop_shared"], "closures": ["drop_shared", "boxed"]},
     "kani_units": [RUNTIME_C12],
     "floor": {"obligations": 62},
     "trusted_base": [
